@@ -249,7 +249,11 @@ fn track_case(kind: u8, active: usize) {
         _ => c_mut || c_store || c_uload || c_load,
     };
     kani::cover!(must, "race");
-    kani::cover!(!must && !(le(&loaded, &cur) && le(&stored, &cur) && le(&unsync_loaded, &cur)), "no race although some non-conflicting access is concurrent");
+    if kind < 3 {
+        kani::cover!(!must && !(le(&loaded, &cur) && le(&stored, &cur) && le(&unsync_loaded, &cur)), "no race although some non-conflicting access is concurrent");
+    } else {
+        kani::cover!(!must, "with_mut ordered after every recorded access");
+    }
     let r = panics_iff(must, || match kind {
         0 => st.track_load(&set),
         1 => st.track_unsync_load(&set),
